@@ -15,7 +15,7 @@ pub struct Case13 {
     pub doc: DocD,
     /// overlay layer (index, layer) or none
     pub overlay: Option<(usize, LayerD)>,
-    /// L1..L10
+    /// L1..L11
     pub law: u8,
     /// law parameters: (index, dx, dy, seed)
     pub p: (usize, i32, i32, u64),
@@ -331,6 +331,38 @@ fn run(case: &Case13) -> Option<(String, Value)> {
             let b2 = build(&d2, &case.overlay);
             diff_at(&base, &b2, bb, 0, 0).and_then(|r| report("L10-glyphs-stored-in-an-attributes-layer-matter", "glyphs of attributes-mode layers exchanged".into(), r))
         }
+        11 => {
+            // the first opaque contribution ends the walk: where the layers from a visible normal-mode layer i upward - with a
+            // cell of layer i at the position - already show a visible cell with solid colours, the whole stack shows that cell;
+            // nothing beneath layer i can matter there
+            for i in 1..d.layers.len() {
+                let l = &d.layers[i];
+                if !l.visible || l.mode != 0 {
+                    continue;
+                }
+                let mut d2 = d.clone();
+                d2.layers.drain(0..i);
+                let ov = case.overlay.clone().and_then(|(oi, l)| if oi >= i { Some((oi - i, l)) } else { None });
+                let ov_base = case.overlay.clone().and_then(|(oi, l)| if oi >= i { Some((oi, l)) } else { None });
+                let base2 = build(d, &ov_base);
+                let b2 = build(&d2, &ov);
+                for (ci, c) in l.cells.iter().enumerate() {
+                    if l.cells[ci + 1..].iter().any(|o| o.x == c.x && o.y == c.y) || c.attr & icy_engine::attribute::INVISIBLE != 0 {
+                        continue;
+                    }
+                    let (x, y) = (l.ox + c.x, l.oy + c.y);
+                    let cb = b2.get_char((x, y));
+                    if !cb.is_visible() || cb.attribute.get_foreground() == TR || cb.attribute.get_background() == TR {
+                        continue;
+                    }
+                    let ca = base2.get_char((x, y));
+                    if !same(&ca, &cb) {
+                        return report("L11-first-opaque-contribution-ends-the-walk", format!("layers below index {i} removed; layer {i} holds a cell here and the layers from {i} upward show solid colours"), (x, y, ca, cb));
+                    }
+                }
+            }
+            None
+        }
         _ => {
             // absolute oracle on the fragment
             if case.overlay.is_some() || d.layers.iter().any(|l| l.mode != 0 || l.cells.iter().any(|c| c.fg == TR || c.bg == TR)) {
@@ -386,9 +418,9 @@ pub struct C13 {}
 impl C13 {
     fn case_for(&self, ctx: &Ctx, k: u64) -> Case13 {
         let mut rng = ctx.rng(k);
-        let law = 1 + (k % 10) as u8;
+        let law = 1 + (k % 11) as u8;
         let normal_only = law == 6 || law == 7 || law == 9 || (law != 10 && rng.chance(1, 3));
-        let transparent = law == 7 || law == 9 || (law != 6 && rng.chance(1, 2));
+        let transparent = law == 7 || law == 9 || law == 11 || (law != 6 && rng.chance(1, 2));
         let mut d = DocD::single(10, 6);
         d.layers.clear();
         for _ in 0..(1 + rng.usize(5)) {
@@ -422,6 +454,29 @@ impl C13 {
             let i = rng.usize(d.layers.len());
             d.layers[i].mode = 2;
             d.layers[i].visible = true;
+        }
+        if law == 11 && d.layers.len() >= 2 && rng.chance(2, 3) {
+            // an attributes (or chars) layer on top of everything, densely filled; opaque and alpha layers beneath
+            let top = d.layers.len() - 1;
+            let l = &mut d.layers[top];
+            l.mode = if rng.chance(3, 4) { 2 } else { 1 };
+            l.visible = true;
+            l.ox = rng.range(-1, 2) as i32;
+            l.oy = rng.range(-1, 2) as i32;
+            l.cells.clear();
+            for y in 0..l.h {
+                for x in 0..l.w {
+                    if rng.chance(1, 4) {
+                        continue;
+                    }
+                    l.cells.push(CellD { x, y, ch: *rng.pick(&[0x41u32, 0x20, 0xDB]), fg: rng.below(16) as u32, bg: rng.below(8) as u32, attr: 0, fp: 0 });
+                }
+            }
+            for l in d.layers.iter_mut().take(top) {
+                l.visible = true;
+                l.ox = rng.range(-2, 3) as i32;
+                l.oy = rng.range(-2, 3) as i32;
+            }
         }
         let overlay = if law != 6 && law != 7 && law != 9 && rng.chance(1, 4) {
             let mut l = gen_layer(&mut rng, true, false);
@@ -478,7 +533,7 @@ impl Prop for C13 {
         "C13"
     }
     fn rule(&self) -> &'static str {
-        "stacks of 1..=5 layers (sizes 1..=12 x 1..=8, offsets -4..=6, normal/chars/attributes mode, alpha or opaque, visible or hidden, sparse content incl. transparent-colour half blocks, optional overlay) are queried with Buffer::get_char at every position of the bounding box plus a 2-cell border before and after a transformation that the stacking laws say is invisible: L1 insert an empty alpha layer at a stack index; L2 rewrite the cells of a hidden layer; L3 translate every layer and the overlay by d and query at p+d; L4 remove all layers below a visible opaque normal-mode layer and query inside its rectangle (also where the opaque layer's own cell uses the transparent colour); L5 move a layer and query positions it covers neither before nor after; L6 compare with a 15-line reference compositor on the fragment 'all layers normal mode, no transparent colours, no overlay'; L7 on normal-mode stacks with transparent-colour cells the topmost visible cell supplies the glyph and each of its own non-transparent colours; L8 give the invisible cells of alpha layers a payload (glyph, colours, flags next to the INVISIBLE flag); L9 where the topmost cell is a half block (220/223) with one transparent colour above another half block, change the colour of the lower cell's half that lies behind the topmost cell's solid half; L10 exchange the glyphs stored in attributes-mode layers (blank <-> non-blank). Invisible results are compared as invisible only. distinct_nontrivial = distinct (law, stack shape, parameters) instances"
+        "stacks of 1..=5 layers (sizes 1..=12 x 1..=8, offsets -4..=6, normal/chars/attributes mode, alpha or opaque, visible or hidden, sparse content incl. transparent-colour half blocks, optional overlay) are queried with Buffer::get_char at every position of the bounding box plus a 2-cell border before and after a transformation that the stacking laws say is invisible: L1 insert an empty alpha layer at a stack index; L2 rewrite the cells of a hidden layer; L3 translate every layer and the overlay by d and query at p+d; L4 remove all layers below a visible opaque normal-mode layer and query inside its rectangle (also where the opaque layer's own cell uses the transparent colour); L5 move a layer and query positions it covers neither before nor after; L6 compare with a 15-line reference compositor on the fragment 'all layers normal mode, no transparent colours, no overlay'; L7 on normal-mode stacks with transparent-colour cells the topmost visible cell supplies the glyph and each of its own non-transparent colours; L8 give the invisible cells of alpha layers a payload (glyph, colours, flags next to the INVISIBLE flag); L9 where the topmost cell is a half block (220/223) with one transparent colour above another half block, change the colour of the lower cell's half that lies behind the topmost cell's solid half; L10 exchange the glyphs stored in attributes-mode layers (blank <-> non-blank); L11 the first opaque contribution ends the walk: where the layers from a visible normal-mode layer i upward, with a cell of layer i at the position, show a visible cell with solid colours, the whole stack shows the same cell (two thirds of these stacks have a dense attributes- or chars-mode layer on top). Invisible results are compared as invisible only. distinct_nontrivial = distinct (law, stack shape, parameters) instances"
     }
     fn meta(&self, ctx: &Ctx) -> Value {
         json!({"floor_evaluations": 5000, "floor_distinct": ctx.tier.pick(5000u64, 100000u64),
